@@ -126,6 +126,20 @@ func VerifV2SliceList() {
 	for i := range list {
 		verifnd.Assert(list[i].(int64) == int64(100+i), "src-unchanged")
 	}
+	// the result is a fresh list: writes through it and through the source do not meet
+	if len(res) > 0 {
+		res[0] = int64(-1)
+		res = append(res, int64(-2))
+		for i := range list {
+			verifnd.Assert(list[i].(int64) == int64(100+i), "result-is-fresh:write-to-result-leaves-source")
+		}
+		list[ref[0]] = int64(-3)
+		if len(ref) > 1 {
+			list[ref[1]] = int64(-4)
+			verifnd.Assert(res[1].(int64) == int64(100+ref[1]), "result-is-fresh:write-to-source-leaves-result")
+		}
+		verifnd.Assert(res[0].(int64) == -1, "result-is-fresh:write-to-source-leaves-result")
+	}
 }
 
 // VerifV2SliceString: the same for a string of 0..N arbitrary bytes (bytes >= 0x80 included).
